@@ -5,6 +5,7 @@ package c08
 import (
 	"errors"
 	"fmt"
+	"os"
 	"reflect"
 	"strings"
 	"testing"
@@ -307,6 +308,87 @@ func TestC08(t *testing.T) {
 			}
 		}
 	}
+}
+
+// TestC08ShortPaths: by-name variables of packages whose import path has a single element (the standard library's
+// top-level packages): "os.Args" is package os, variable Args - nothing is prepended to it.
+func TestC08ShortPaths(t *testing.T) {
+	rep := vmon.NewReport("C08")
+	defer rep.Write()
+	saved := append([]string{}, os.Args...)
+	for round := 0; round < 3; round++ {
+		b := mocker.Create()
+		var perr interface{}
+		func() {
+			defer func() { perr = recover() }()
+			b.UnExportedVar("os.Args").Set([]string{"mocked", fmt.Sprint(round)})
+		}()
+		rep.Eval(2)
+		c := map[string]interface{}{"path": "os.Args", "round": round}
+		if perr != nil {
+			rep.Violate("C08/short-path-not-found", fmt.Sprintf("UnExportedVar(\"os.Args\").Set panicked: %v", firstLine(perr)), c)
+			break
+		}
+		if len(os.Args) != 2 || os.Args[0] != "mocked" || os.Args[1] != fmt.Sprint(round) {
+			rep.Violate("C08/set-not-observed", fmt.Sprintf("os.Args = %v after Set([mocked %d])", os.Args, round), c)
+		}
+		b.Reset()
+		if !reflect.DeepEqual(os.Args, saved) {
+			rep.Violate("C08/not-restored", fmt.Sprintf("os.Args = %v after Reset, want %v", os.Args, saved), c)
+			os.Args = saved
+		}
+	}
+	// the same identifier in two packages (the checked-in copy of the variable package lives under a longer import
+	// path), mocked through one builder: each is its own variable
+	{
+		const copyPath = "github.com/tencent/goom/zzverif/c08/a/github.com/tencent/goom/zzverif/c08/vars"
+		find := func(ds []vars.Desc, name string) *vars.Desc {
+			for i := range ds {
+				if ds[i].Name == name {
+					return &ds[i]
+				}
+			}
+			return nil
+		}
+		for _, name := range []string{"Int", "String"} {
+			d1 := find(vars.Descs, name)
+			var d2 *vars.Desc
+			for i := range varscopy.Descs {
+				if varscopy.Descs[i].Name == name {
+					dd := vars.Desc(varscopy.Descs[i])
+					d2 = &dd
+				}
+			}
+			if d1 == nil || d2 == nil {
+				continue
+			}
+			v1, v2 := values(d1.Type)[0], values(d1.Type)[1]
+			o1, o2 := d1.URead(), d2.URead()
+			b := mocker.Create()
+			var perr interface{}
+			func() {
+				defer func() { perr = recover() }()
+				b.UnExportedVar(pkgPath + ".u" + name).Set(v1)
+				b.UnExportedVar(copyPath + ".u" + name).Set(v2)
+			}()
+			rep.Eval(4)
+			c := map[string]interface{}{"name": "u" + name}
+			if perr != nil {
+				rep.Violate("C08/step-panicked", fmt.Sprintf("u%s in two packages through one builder: %v", name, firstLine(perr)), c)
+			} else if g1, g2 := d1.URead(), d2.URead(); !reflect.DeepEqual(g1, v1) || !reflect.DeepEqual(g2, v2) {
+				rep.Violate("C08/set-not-observed", fmt.Sprintf("u%s of package vars set to %v and u%s of its copy under a longer path set to %v through one builder: readers see %v and %v", name, v1, name, v2, g1, g2), c)
+			}
+			func() { defer func() { recover() }(); b.Reset() }()
+			if g1, g2 := d1.URead(), d2.URead(); !reflect.DeepEqual(g1, o1) || !reflect.DeepEqual(g2, o2) {
+				rep.Violate("C08/not-restored", fmt.Sprintf("u%s in two packages after Reset: %v and %v, want %v and %v", name, g1, g2, o1, o2), c)
+				reflect.NewAt(reflect.TypeOf(d1.XPtr).Elem(), d1.UAddr).Elem().Set(restoreValue(reflect.TypeOf(d1.XPtr).Elem(), o1))
+				reflect.NewAt(reflect.TypeOf(d2.XPtr).Elem(), d2.UAddr).Elem().Set(restoreValue(reflect.TypeOf(d2.XPtr).Elem(), o2))
+			}
+			rep.Class("same-identifier-two-packages/" + name)
+		}
+	}
+	rep.Class("short-path/os.Args")
+	rep.Class("short-path/three-rounds")
 }
 
 func noSetBefore(hist []string) bool {
